@@ -15,7 +15,8 @@ RULE = (
     "definition options (memory/vcpus/flavor), options exported at definition (memory/zone) — where each "
     "call may add call-time options, call-time exported options and expression-valued options "
     "(evaluated by a child job), run with caching on or off (run(cache=False)) and with prov=False "
-    "subtrees. Every job body carries a unique marker so each submission seen by the harness executor "
+    "subtrees; in some cases the same process then runs a second tree built from the same Task objects "
+    "(independent, or the first with exported call-time options turned into plain ones). Every job body carries a unique marker so each submission seen by the harness executor "
     "is matched to its tree node. Oracle: the formula of docs/source/implementation/evaluation.md "
     "evaluated independently — options(j) = definition(task) | {k: options(parent)[k] for k in "
     "exported(parent)} | call-time(j) | scheduler-imposed, exported(j) = exported(parent) U "
@@ -40,6 +41,10 @@ def trees(draw):
         uid[0] += 1
         me = uid[0]
         kids = [node(depth - 1) for _ in range(draw(st.integers(0, 2)))] if depth > 0 else []
+        if draw(st.integers(0, 3)) == 0:
+            # a bare call of the shared Task object itself (no .options() clone in between)
+            return {"uid": me, "t": draw(st.sampled_from(["node", "onode", "xnode", "xnode"])), "options": {}, "export": {},
+                    "optexpr": {}, "prov": None, "cache_scope": None, "kids": kids}
         spec = {"uid": me, "t": draw(st.sampled_from(["node", "onode", "xnode"])),
                 "options": draw(st.dictionaries(st.sampled_from(KEYS), vals, max_size=2)),
                 "export": draw(st.dictionaries(st.sampled_from(KEYS), vals, max_size=2)) if draw(st.integers(0, 2)) == 0 else {},
@@ -49,8 +54,25 @@ def trees(draw):
                 "kids": kids}
         return spec
 
-    return {"tree": node(draw(st.integers(1, 3))), "cache": draw(st.booleans()),
-            "decisions": draw(st.lists(st.integers(0, 3), max_size=20))}
+    tree = node(draw(st.integers(1, 3)))
+    case = {"tree": tree, "cache": draw(st.booleans()), "decisions": draw(st.lists(st.integers(0, 3), max_size=20))}
+    # a history: the same process then runs a second tree built from the same Task objects; either an
+    # independent one or the first with (some) exported call-time options turned into plain ones
+    nxt = draw(st.sampled_from([None, None, "independent", "unexport", "unexport"]))
+    if nxt == "independent":
+        uid[0] = 0
+        case["then"] = node(draw(st.integers(1, 3)))
+    elif nxt == "unexport":
+        def unexport(spec):
+            keep = draw(st.booleans()) if spec["export"] else True
+            out = dict(spec, kids=[unexport(k) for k in spec["kids"]])
+            if not keep:
+                out["options"] = {**spec["export"], **spec["options"]}
+                out["export"] = {}
+            return out
+
+        case["then"] = unexport(tree)
+    return case
 
 
 def to_ast(spec):
@@ -109,7 +131,41 @@ def expected(case) -> dict:
     return out
 
 
+def reset_tasks():
+    """Definition-time state of the shared Task objects (the harness resets what it shares between cases)."""
+    import vf_tasks
+
+    vf_tasks.node._export_options = set()
+    vf_tasks.onode._export_options = set()
+    vf_tasks.xnode._export_options = set(DEF_EXPORT["xnode"])
+
+
 def oracle(ctx: Ctx, case):
+    reset_tasks()
+    try:
+        exp = oracle_one(ctx, case, case)
+        if case.get("then"):
+            try:
+                oracle_one(ctx, dict(case, tree=case["then"]), case)
+            except Violation as v:
+                if v.key.startswith("option-precedence:"):
+                    reset_tasks()
+                    try:
+                        oracle_one(ctx, dict(case, tree=case["then"]), case)
+                    except Violation:
+                        raise v
+                    raise Violation("history-dependent:" + v.key, "second run in the same process (it is correct when run "
+                                    "first): " + v.message, case)
+                raise
+        return exp
+    except Violation as v:
+        v.case = case
+        raise
+    finally:
+        reset_tasks()
+
+
+def oracle_one(ctx: Ctx, case, full_case):
     from redun.task import CacheScope
 
     ast = to_ast(case["tree"])
@@ -181,7 +237,7 @@ def run_case(ctx: Ctx, case) -> None:
         lv = multi_level(case["tree"])
         multi = any(len(v) >= 2 for v in lv.values())
         exported = has(case["tree"], "export") or "xnode" in repr(case["tree"])
-        ctx.case(case, labels=[f"cache:{case['cache']}", "exported" if exported else "no-export",
+        ctx.case(case, labels=[f"cache:{case['cache']}", "history" if case.get("then") else "single-run", "exported" if exported else "no-export",
                                "optexpr" if has(case["tree"], "optexpr") else "no-optexpr",
                                "noprov" if "'prov': False" in repr(case["tree"]) else "prov"],
                  nontrivial=(multi and exported) or has(case["tree"], "optexpr"))
@@ -189,7 +245,7 @@ def run_case(ctx: Ctx, case) -> None:
 
 def check(ctx: Ctx) -> None:
     C.quiet_logs()
-    ctx.given(trees(), lambda c: run_case(ctx, c), ctx.n(250, 8000))
+    ctx.given(trees(), lambda c: run_case(ctx, c), ctx.n(350, 8000))
 
 
 def replay(ctx: Ctx, case) -> None:
